@@ -98,8 +98,10 @@ def match_finding(findings, key):
                 continue
         elif ku is not None and ku != key.get("unit"):
             continue
-        if "template" in k and k["template"] != key.get("template"):
-            continue
+        if "template" in k:
+            kt = k["template"]
+            if (key.get("template") not in kt) if isinstance(kt, list) else (kt != key.get("template")):
+                continue
         if _safe_eval(k.get("when", ""), key.get("params", {})):
             return f
     return None
